@@ -82,3 +82,58 @@ Proof.
   destruct (Nat.eq_dec j n) as [->|Hne]; [|apply IH; [exact H2|lia]].
   destruct (ph (tasks s n)); try discriminate. reflexivity.
 Qed.
+
+(* ---- every stamp is backed by the LTS's own event log at the moment it is taken -------------------------- *)
+Definition backed (o : ost) (e : oev) : Prop :=
+  let s := o_s o in
+  match e with
+  | OBeg j => In (EvBegin j) (log s)
+  | OEnd j _ => In (EvBegin j) (log s)
+  | OSeen x => err_code (first_err (log s)) = x
+  | OWaitRet x => err_code (first_err (log s)) = x /\ cursor s = None /\
+                  forall j, j < next s -> ph (tasks s j) = PDone
+  | _ => True
+  end.
+
+Lemma ostamp_backed : forall c o e o', Inv c (o_s o) -> ostamp o e = Some o' -> backed o e.
+Proof.
+  intros c o e o' (_ & P & _) H. unfold ostamp in H. destruct e; cbn [backed]; try exact I.
+  - destruct (is_prun (ph (tasks (o_s o) j))) eqn:Hp; [|discriminate].
+    apply (l_run P). destruct (ph (tasks (o_s o) j)); try discriminate. reflexivity.
+  - destruct (end_find j (o_end o)); [discriminate|].
+    destruct (is_prun (ph (tasks (o_s o) j))) eqn:Hp; [|discriminate].
+    apply (l_run P). destruct (ph (tasks (o_s o) j)); try discriminate. reflexivity.
+  - destruct (N.eqb (err_code (err (o_s o))) x) eqn:Hx; [|discriminate].
+    apply N.eqb_eq in Hx. now rewrite <- (l_err1 P).
+  - destruct (o_waitcall o); [|discriminate]. cbn [andb] in H.
+    destruct (client_idle o) eqn:Hc; [|discriminate]. cbn [andb] in H.
+    destruct (all_done_b (o_s o) (next (o_s o))) eqn:Hd; [|discriminate]. cbn [andb] in H.
+    destruct (N.eqb (err_code (err (o_s o))) x) eqn:Hx; [|discriminate].
+    apply N.eqb_eq in Hx. split; [now rewrite <- (l_err1 P)|]. split.
+    + unfold client_idle, no_cursor in Hc. destruct (cursor (o_s o)); [discriminate|reflexivity].
+    + now apply all_done_b_spec.
+Qed.
+
+Lemma orun_app_inv : forall c a b o o', orun c o (a ++ b) = Some o' ->
+  exists o1, orun c o a = Some o1 /\ orun c o1 b = Some o'.
+Proof.
+  intros c a. induction a as [|it a IH]; intros b o o' H.
+  - exists o. split; [reflexivity|exact H].
+  - cbn [app orun] in H |- *. destruct (ostep c o it) as [o2|]; [|discriminate]. now apply IH.
+Qed.
+
+(* In a run of the instrumented LTS every observed event is stamped in an LTS state (itself reached by a run of
+   the LTS) whose log already contains what it reports: f's begin/end stamps follow the task's EvBegin, an observed
+   sticky error is the first error of the log, and when Wait returns x every registered task went through its
+   deferred function and x is the first error of the log. *)
+Theorem obs_backed : forall c its o, cfg_ok c -> obs_run c its o ->
+  forall its1 e its2, its = its1 ++ IO e :: its2 ->
+  exists o1, obs_run c its1 o1 /\ steps c init (labels_of its1) (o_s o1) /\ backed o1 e.
+Proof.
+  intros c its o Hc Hr its1 e its2 ->. unfold obs_run in Hr.
+  destruct (orun_app_inv _ _ _ _ _ Hr) as (o1 & H1 & H2). exists o1.
+  pose proof (orun_steps _ _ _ _ H1) as Hst. split; [exact H1|]. split; [exact Hst|].
+  cbn [orun ostep] in H2. destruct (ostamp o1 e) as [o2|] eqn:Hs; [|discriminate].
+  eapply ostamp_backed; [|exact Hs]. eapply reachable_Inv; eauto.
+Qed.
+Print Assumptions obs_backed.
